@@ -256,3 +256,93 @@ def show(d):
         name = "SIZE" if k == "S" else ("n%s" % (k[2] if isinstance(k, tuple) else "")) if isinstance(k, tuple) else str(k)[:30]
         out.append(("+" if v > 0 else "-") + name)
     return "".join(out).lstrip("+")
+
+
+# ---- the end-of-body latch ---------------------------------------------------------------------------------------------------------------
+
+def initial_fields(facts, adt):
+    """constant fields (bool / field-less enum values) a freshly constructed `adt` starts with: {field: term}; None if constructions disagree"""
+    import parser_rules as PRS
+    out = {}
+    cons = [(g, bb, s) for g, bb, s in facts.constructions(adt) if "::tests::" not in g.id and not g.id.startswith("test")]
+    for g, bb, s in cons:
+        r = s["rhs"]
+        for name, op in zip(r.get("fields") or [], r["ops"]):
+            v = PRS.static_value(g, op)
+            if v is None:
+                continue
+            fty = [x["ty"] for x in facts.adt(adt)["variants"][0]["fields"] if x["name"] == name][0]
+            term = ("const", v[1], "true" if v[1] else "false", None) if v[0] == "b" else ("agg", fty, v[1], {})
+            if name in out and out[name] != term:
+                return None
+            out[name] = term
+    return out if cons else None
+
+
+def from_param(v, k):
+    """does the term refer to (a reborrow of) parameter k?"""
+    for x in absint.walk_terms(v):
+        if x and x[0] in ("init", "ref", "ref*") and isinstance(x[1], tuple) and x[1] and x[1][0] == k:
+            return True
+    return v is not None and v[0] in ("init", "ref") and isinstance(v[1], tuple) and v[1][:1] == (k,)
+
+
+def latch_rule(ctx, rule):
+    """A body reader whose destructor discards the unread rest must not be switched off by a read that says nothing about the end of the
+    body: `read` into an EMPTY buffer returns 0 anywhere in the body.  Decided by evaluation: start from the state the reader is constructed
+    in, perform one `read` with an empty buffer whose inner read returns Ok(0), and run the destructor on the resulting state: it must still read."""
+    facts = ctx.facts
+    import fused_rules as FU
+    n = 0
+    for aid, a in sorted(facts.adts.items()):
+        if a["kind"] != "Struct" or not a["has_drop"] or facts.trait_method(T_READ, aid, "read") is None or facts.drop_fn(aid) is None:
+            continue
+        D = dmodel(facts, aid)
+        if not any(reads_of(p) for p in D.paths()):
+            continue        # the destructor does not read: nothing to switch off
+        init = initial_fields(facts, aid)
+        rd = method(facts, T_READ, aid, "read")
+        where = "%s:%d" % (rd.file, rd.line)
+        n += 1
+        if init is None:
+            ctx.ob(rule, "%s|latch" % aid, "the reader's initial state is definite", False, where)
+            continue
+        fr = inline.inlined(facts, rd.id, stop=lambda x: facts.fns[x].rec.get("local") and facts.fns[x].file != rd.file, extern_ok=Q.std_small)
+        fields = [x["name"] for x in a["variants"][0]["fields"]]
+        def run_read(empty):
+            st = symex.Sym(fr)
+            for k, v in init.items():
+                st.write_key((1, "*", "." + k), v)
+            def on_call(bb, t, args, s2):
+                nm = call_name(t)
+                if t.get("callee") in FU.READS:
+                    return FU.ok_(0)
+                if re.search(r"slice::<impl \[T\]>::(is_empty|len)$", nm) and args and from_param(absint.deep(s2, args[0]), 2):
+                    if nm.endswith("is_empty"):
+                        return ("const", empty, "true" if empty else "false", None)
+                    return ("const", 0 if empty else 16, "0_usize" if empty else "16_usize", None)
+                return None
+            return [p for p in absint.explore(fr, 0, st, on_call=on_call, max_paths=2000) if p.end[0] == "return"]
+        def drop_reads(state_of):
+            """does the destructor read on every completed path when started in this state?"""
+            ps = [p for p in D.paths(state_of) if p.end[0] not in DEAD]
+            return bool(ps) and all(reads_of(p) for p in ps)
+        base = {(1, "*", "." + k): v for k, v in init.items()}
+        ok0 = drop_reads(base)
+        if not ok0 and any(x["ty"] == "usize" for x in a["variants"][0]["fields"]):
+            n -= 1
+            continue        # whether this destructor reads is decided by a byte counter, not by a latch (see the `owed` rules)
+        ctx.ob(rule, "%s|fresh-reader-drains" % aid, "a reader that was never read from discards its body when dropped", ok0, where)
+        bad = []
+        for p in run_read(True):
+            after = dict(base)
+            for k in fields:
+                v = absint.deep(p.state, p.state.read_key((1, "*", "." + k)))
+                if v[0] != "init":
+                    after[(1, "*", "." + k)] = v
+            if not drop_reads(after):
+                bad.append({k[2][1:]: symex.sym_str(v)[:40] for k, v in after.items() if base.get(k) != v})
+        ctx.ob(rule, "%s|empty-read-keeps-draining" % aid,
+               "a read into an empty buffer (which returns 0 anywhere in the body) does not switch the draining destructor off: the rest of the body would be parsed as the next request",
+               ok0 and not bad, where, None if not bad else "after such a read the destructor no longer reads; state changed to %s" % bad[:2])
+    return n
